@@ -26,7 +26,7 @@ struct lex_ghost {
     size_t slen;           /* index of a NUL in the string most recently terminated by the lexer / snprintf */
     const void *last_freed;/* argument of the most recent free() */
     const void *tok_at_fail;/* value of `tokens` at a `return NULL` (ghost statement) */
-    int cut;               /* written by the ghost statement at the top of the main loop body; never read */
+    int cls;               /* written by the case-split ghost statement at the top of the main loop body; never read */
 };
 extern struct lex_ghost __verif_lx;
 /* the token array's block: result of the first malloc (realloc grows it in place).  Kept OUTSIDE __verif_lx:
@@ -141,7 +141,9 @@ __CPROVER_ensures(__CPROVER_return_value == NULL ==>
 /* otherwise: 1..len+1 tokens, array readable for that many, the last one is EOF */
 __CPROVER_ensures(__CPROVER_return_value != NULL ==>
                   (*token_count >= 1 && (size_t)*token_count <= __verif_len + 1 &&
-                   __CPROVER_r_ok(__CPROVER_return_value, sizeof(Token) * (size_t)*token_count)));
+                   __CPROVER_r_ok(__CPROVER_return_value, sizeof(Token) * (size_t)*token_count) &&
+                   __CPROVER_return_value[*token_count - 1].token_type == TOKEN_EOF &&
+                   __CPROVER_return_value[*token_count - 1].value == NULL));
 
 /* ---- glibc <ctype.h>: isspace()/isalpha()/... expand to (*__ctype_b_loc())[(int)(c)] & mask ----
  * Stub body: pointer into the middle of a 384-entry table (valid indices -128..255, as in glibc).
@@ -171,11 +173,28 @@ static void lex_ctype_init(void)
 #endif
 }
 
-/* called by the ghost statement at the top of the main loop body on a branch the invariant excludes */
-static int lex_unreachable(void)
+/* ---- case split of the main loop body (strength X) ----
+ * One iteration of the main loop is checked per class of its first byte c = source[i] (the loop guard has
+ * already established c != 0).  The ghost statement at the top of the loop body calls lex_case(c), which
+ * assumes the class predicate selected by -DLEX_CASE=k.  Class 6 is by definition the complement of classes
+ * 0..5, so the seven classes cover every byte whatever the ctype table says (also checked: h_cases).  The
+ * classes may overlap; that only means some iterations are checked twice.  Without -DLEX_CASE nothing is
+ * assumed (the unsplit obligation: same proof in one query, about 8 minutes). */
+#define LEX_P0(c) (isspace(c) || (c) == '#' || (c) == '/')                 /* blanks, comments (and '/') */
+#define LEX_P1(c) ((c) == '\'')                                            /* character literal */
+#define LEX_P2(c) ((c) == '"')                                             /* string literal */
+#define LEX_P3(c) (isdigit(c) || (c) == '-')                               /* number (and '-', '->') */
+#define LEX_P4(c) (isalpha(c) || (c) == '_')                               /* identifier / keyword */
+#define LEX_P5(c) ((c) == ':' || (c) == '=' || (c) == '!' || (c) == '<' || (c) == '>')   /* two-character operators */
+#define LEX_P6(c) (!(LEX_P0(c) || LEX_P1(c) || LEX_P2(c) || LEX_P3(c) || LEX_P4(c) || LEX_P5(c)))
+#define LEX_PASTE2(a, b) a##b
+#define LEX_PASTE(a, b) LEX_PASTE2(a, b)
+static int lex_case(char c)
 {
-    __CPROVER_assert(0, "ghost: branch excluded by the loop invariant is unreachable");
-    __CPROVER_assume(0);
+#ifdef LEX_CASE
+    __CPROVER_assume(LEX_PASTE(LEX_P, LEX_CASE)(c));
+#endif
+    (void)c;
     return 0;
 }
 
